@@ -213,3 +213,65 @@ func BadF4CtorUse(size int) int {
 	o.grow()
 	return o.n
 }
+
+// ---- E5: the node taken off the front of a doubly linked list is cut off -----------------------------------------------------
+
+type e5node struct {
+	next, prev *e5node
+	val        *int
+}
+
+type e5list struct {
+	head *e5node
+	n    int
+}
+
+func (l *e5list) GoodE5Pop() *int {
+	if l.head == nil {
+		return nil
+	}
+	v := l.head.val
+	l.head.val = nil
+	l.head = l.head.next
+	if l.head != nil {
+		l.head.prev = nil
+	}
+	l.n--
+	return v
+}
+
+func (l *e5list) BadE5Pop() *int {
+	if l.head == nil {
+		return nil
+	}
+	v := l.head.val
+	l.head.val = nil
+	l.head = l.head.next
+	l.n--
+	return v
+}
+
+// ---- W1: a named result that is never assigned --------------------------------------------------------------------------------
+
+// GoodW1Unpack never assigns `spare` and says so consistently: every successful return hands back its zero value.
+func GoodW1Unpack(start int, xs []int) (next int, spare int, err error) {
+	if len(xs) == 0 {
+		return start, spare, nil
+	}
+	n := start
+	for _, x := range xs {
+		n += x
+	}
+	return n, spare, nil
+}
+
+func BadW1Unpack(start int, xs []int) (consumed int, next int, err error) {
+	if len(xs) == 0 {
+		return 0, next, nil // next was never assigned: the running value restarts at zero
+	}
+	n := start
+	for _, x := range xs {
+		n += x
+	}
+	return len(xs), n, nil
+}
